@@ -21,6 +21,58 @@ pub(crate) fn check_valid_ip_v6(addr: u128, ip: u128, mask: u128) {
     assert!(!r4);
 }
 
+/// BOUNDED stand-in by exhaustive execution for decode_txt_unique (its `Vec::retain` closure keeps state in a captured
+/// HashSet: outside Verus; `HashSet::new` needs a syscall Kani cannot model): every TXT record of 0..=4 strings over
+/// keys { a, A, b, c } x value { none, "", "1" } (22 621 records). Oracle taken from the statement: of the
+/// properties decode_txt yields, exactly the first occurrence of each key (compared without regard to case), in order.
+pub(crate) fn exec_decode_txt_unique_all() -> usize {
+    let keys = ["a", "A", "b", "c"];
+    let vals: [Option<&str>; 3] = [None, Some(""), Some("1")];
+    let mut atoms: Vec<(String, Option<Vec<u8>>, Vec<u8>)> = Vec::new();
+    for k in keys.iter() {
+        for v in vals.iter() {
+            let s = match v { None => k.to_string(), Some(x) => format!("{}={}", k, x) };
+            atoms.push((k.to_string(), v.map(|x| x.as_bytes().to_vec()), s.into_bytes()));
+        }
+    }
+    let mut count = 0usize;
+    let mut seqs: Vec<Vec<usize>> = vec![Vec::new()];
+    for _len in 0..=4 {
+        let mut next = Vec::new();
+        for sq in seqs.iter() {
+            let mut txt = Vec::new();
+            for &i in sq.iter() {
+                txt.push(atoms[i].2.len() as u8);
+                txt.extend_from_slice(&atoms[i].2);
+            }
+            let got = decode_txt_unique(&txt);
+            let mut seen: Vec<String> = Vec::new();
+            let mut exp: Vec<usize> = Vec::new();
+            for &i in sq.iter() {
+                let lk = atoms[i].0.to_lowercase();
+                if !seen.contains(&lk) {
+                    seen.push(lk);
+                    exp.push(i);
+                }
+            }
+            assert!(got.len() == exp.len(), "decode_txt_unique({:?}): {} properties, expected {}", sq, got.len(), exp.len());
+            for (g, &i) in got.iter().zip(exp.iter()) {
+                assert!(g.key() == atoms[i].0 && g.val().map(|v| v.to_vec()) == atoms[i].1, "decode_txt_unique({:?}): got {:?}", sq, g);
+            }
+            count += 1;
+            if sq.len() < 4 {
+                for i in 0..atoms.len() {
+                    let mut n = sq.clone();
+                    n.push(i);
+                    next.push(n);
+                }
+            }
+        }
+        seqs = next;
+    }
+    count
+}
+
 // (Probe::new builds a HashSet, whose RandomState needs a getrandom syscall Kani cannot model; the Probe
 // timing functions are proved by Verus in unit `records`.)
 
